@@ -12,3 +12,12 @@ func NumLT(x, y *NumVal) bool { return x.V < y.V && NumNE(x, y) }
 func NumLE(x, y *NumVal) bool { return x.V <= y.V || NumEQ(x, y) }
 func NumGT(x, y *NumVal) bool { return x.V > y.V && NumNE(x, y) }
 func NumGE(x, y *NumVal) bool { return x.V >= y.V || NumEQ(x, y) }
+
+// NumMod 取模: 操作数向零取整后的整数余数(符号与被除数一致), 超出 int64 范围也精确
+func NumMod(x, y float64) float64 {
+	y = math.Trunc(y)
+	if y == 0 {
+		panic("integer divide by zero")
+	}
+	return math.Mod(math.Trunc(x), y) + 0 // + 0: 整数余数没有 -0
+}
